@@ -224,8 +224,49 @@ def stage3(work_dir, resume, layer):
             fu.open = saved[1]
 
 
-STAGES = {"collect": stage, "process": stage2, "merge": stage3}
-LOCKS = {"collect": "_collected", "process": "_processed", "merge": None}
+def stage4(work_dir, resume, layer):
+    """the real DatasetProcessor.collect_reads (sample level): info file, then the sample lock; resuming = the real
+    collect_reads again followed by the real load_read_info"""
+    import src.multimap_resolver as mr
+    saved = (dp.collect_reads_in_parallel, dp.pysam, dp.__dict__.get("open"))
+    dp.collect_reads_in_parallel = lambda sample, chr_id, args: ({"grpA", "NA"}, stats.EnumStats(), ["read_%d" % i for i in range(N_READS)])
+    dp.pysam = Obj(AlignmentFile=lambda *a, **k: Obj(unmapped=0))
+    dp.open = layer.open
+
+    class Quick:
+        def __init__(self, path):
+            self.done = False
+
+        def has_next(self):
+            return not self.done
+
+        def get_next(self):
+            self.done = True
+            for i in range(N_READS):
+                yield Obj(read_id="read_%d" % i, polyA_found=(i == 0))
+    saved_loader = dp.BasicReadAssignmentLoader
+    dp.BasicReadAssignmentLoader = Quick
+    try:
+        this = dp.DatasetProcessor.__new__(dp.DatasetProcessor)
+        this.args = Obj(threads=1, high_memory=False, resume=resume, multimap_strategy=mr.MultimapResolvingStrategy.take_best, keep_tmp=True,
+                        gunzipped_reference=None)
+        this.get_chr_list = lambda: ["chr1"]
+        this.alignment_stat_counter = stats.EnumStats()
+        sample = Obj(out_raw_file=os.path.join(work_dir, "smp.save"), file_list=[["x.bam"]])
+        this.collect_reads(sample)
+        total, polya, groups = this.load_read_info(sample.out_raw_file)
+        return {"total_assignments": total, "polya": polya, "groups": sorted(groups)}
+    finally:
+        dp.collect_reads_in_parallel, dp.pysam = saved[0], saved[1]
+        dp.BasicReadAssignmentLoader = saved_loader
+        if saved[2] is None:
+            dp.__dict__.pop("open", None)
+        else:
+            dp.open = saved[2]
+
+
+STAGES = {"collect": stage, "process": stage2, "merge": stage3, "sample": stage4}
+LOCKS = {"collect": "_collected", "process": "_processed", "merge": None, "sample": ".save_lock"}
 
 
 def main():
